@@ -78,6 +78,7 @@ func (m *M) ModeName(content string) string {
 }
 
 type chunkReader struct {
+	empty int // consecutive calls with an empty buffer
 	chunks  [][]byte
 	i       int
 	calls   int
@@ -99,6 +100,16 @@ func (r *chunkReader) Read(p []byte) (int, error) {
 		r.zeroed = true
 		return 0, nil
 	}
+	if len(p) == 0 && r.i < len(r.chunks) {
+		// io.Reader: a read into an empty buffer returns 0, nil. A caller that
+		// keeps asking with an empty buffer never gets anywhere: after 10000
+		// such calls in a row the run is stopped and reported as not terminating.
+		if r.empty++; r.empty > 10000 {
+			panic("does not terminate: the reader was called 10000 times in a row with an empty buffer")
+		}
+		return 0, nil
+	}
+	r.empty = 0
 	if r.i >= len(r.chunks) {
 		r.eofSent = true
 		return 0, io.EOF
